@@ -97,6 +97,7 @@ type interpreter struct {
 	syncMaps           map[*value]*syncMapModel
 	globalsList        []*ssa.Global
 	onceDone           map[*value]bool
+	pools              map[*value][]value // sync.Pool contents (per path)
 	mapIters           map[*value]*mapIterModel
 	callStack          []*ssa.Function
 	unwinding          bool
@@ -210,6 +211,11 @@ func visitInstr(fr *frame, instr ssa.Instruction) continuation {
 		// no-op
 
 	case *ssa.UnOp:
+		if instr.Op == token.ARROW {
+			if ps := fr.i.ps; ps != nil && ps.monitor != nil {
+				ps.monitor.noteChan(fr, fr.get(instr.X), "receive")
+			}
+		}
 		fr.env[instr] = fr.unopSym(instr, fr.get(instr.X))
 
 	case *ssa.BinOp:
@@ -262,6 +268,9 @@ func visitInstr(fr *frame, instr ssa.Instruction) continuation {
 		panic(targetPanic{fr.get(instr.X)})
 
 	case *ssa.Send:
+		if ps := fr.i.ps; ps != nil && ps.monitor != nil {
+			ps.monitor.noteChan(fr, fr.get(instr.Chan), "send")
+		}
 		fr.get(instr.Chan).(chan value) <- fr.get(instr.X)
 
 	case *ssa.Store:
@@ -450,6 +459,13 @@ func visitInstr(fr *frame, instr ssa.Instruction) continuation {
 		chosen, recv, recvOk := reflect.Select(cases)
 		if !instr.Blocking {
 			chosen-- // default case should have index -1.
+		}
+		if ps := fr.i.ps; ps != nil && ps.monitor != nil && chosen >= 0 {
+			what := "send"
+			if instr.States[chosen].Dir == types.RecvOnly {
+				what = "receive"
+			}
+			ps.monitor.noteChan(fr, fr.get(instr.States[chosen].Chan), what)
 		}
 		r := tuple{chosen, recvOk}
 		for i, st := range instr.States {
